@@ -665,9 +665,11 @@ def sleepy_history(rng, version, length, fault_p=0.0):
             op = ("recv", rng.choice([f"0;255;3;0;2;{rep}", f"0;255;0;0;18;{rep}"]), (), gw.DEFAULT_TIME)
         elif r < 0.95:
             op = ("recv", f"{n};255;0;0;17;2.0", (), gw.DEFAULT_TIME)
+        elif r < 0.97:
+            op = gw.SESSION          # the application reconnects: whatever is parked stays parked
         else:
             op = ("recv", f"{n};{rng.choice((0, 1))};0;0;6;d", (), gw.DEFAULT_TIME)
-        if fault_p and rng.random() < fault_p:
+        if op[0] != "session" and fault_p and rng.random() < fault_p:
             f = tuple(rng.random() < 0.5 for _ in range(rng.randint(1, 4)))
             op = (op[0], op[1], f, op[3]) if op[0] == "recv" else (op[0], op[1], op[2], f)
         h.ops.append(op)
@@ -693,6 +695,11 @@ def run_c07(ctx) -> Corr:
             case = {"history": Hist(h.version, h.metric, h.preload, h.ops[: i + 1]).to_json(), "outcome": o["out"],
                     "writes": [w[0] for w in o["writes"]]}
             got = [w[0] for w in o["writes"]]
+            if op[0] == "session":
+                if got or o["out"] != "ok":
+                    corr.violate("leaving and re-entering the gateway context wrote something or failed", case)
+                    break
+                continue
             if op[0] == "send":
                 f = op[1]
                 node = before["nodes"].get(f[0])
@@ -1095,8 +1102,11 @@ def run_c12(ctx) -> Corr:
                             # a second held message for node 2 and a wake whose second write fails, then a clean wake
                             h.ops.append(("send", (2, 1, 1, 0, int(t) + 1, "6"), True, ()))
                             h.ops.append(("recv", f"2;255;3;0;{wake_t};5", (False, True), gw.DEFAULT_TIME))
-                        for n in (1, 2):
-                            h.ops.append(("recv", f"{n};255;3;0;{wake_t};5", (), gw.DEFAULT_TIME))
+                        wakes = [("recv", f"{n};255;3;0;{wake_t};5", (), gw.DEFAULT_TIME) for n in (1, 2)]
+                        if cmd == 1 and buffer and not fault:
+                            # the same, with the gateway context left and entered again (a reconnect) before the wakes
+                            hists.append(Hist(v, True, h.preload, h.ops + [gw.SESSION] + wakes))
+                        h.ops.extend(wakes)
                         hists.append(h)
         h = Hist(v, True)
         h.ops = [("send", None, True, ()), ("send", None, False, ())]
@@ -1108,6 +1118,8 @@ def run_c12(ctx) -> Corr:
             before, o = io[i], io[i + 1]
             case = {"history": Hist(h.version, h.metric, h.preload, h.ops[: i + 1]).to_json(), "outcome": o["out"],
                     "writes": [list(w) for w in o["writes"]]}
+            if op[0] == "session":
+                continue
             if op[0] == "send":
                 f = op[1]
                 if f is None:
